@@ -193,6 +193,14 @@ func (x *xf) stmt(s ast.Stmt) []ast.Stmt {
 	case *ast.BlockStmt:
 		n.List = x.list(n.List)
 		return []ast.Stmt{n}
+	case *ast.ForStmt:
+		x.walk(reflect.ValueOf(s))
+		if n.Body != nil && len(n.Body.List) == 0 && !*noPoint && x.quiet == 0 {
+			// a loop with an empty body (a spin on its condition) still needs a preemption point, or a spin that never
+			// ends is a real hang instead of a step-budget report
+			n.Body.List = []ast.Stmt{&ast.ExprStmt{X: x.rt("Point", x.site(n.Body.Pos(), "point"))}}
+		}
+		return []ast.Stmt{s}
 	default:
 		x.walk(reflect.ValueOf(s))
 		return []ast.Stmt{s}
